@@ -193,3 +193,63 @@ def run_script(ps, s, tol, ops, with_caches):
                 tr.move_past_token(last, fastforward_post_space=False)
             out.append('@%d' % tr.cur_pos())
     return ' '.join(out)
+
+
+def w_case_multi(states, s, tol, ops, entry=1101):
+    """states: list of (fields, chain); ops: list of (op, state index)"""
+    return ([entry] + w_list(states, lambda fc: w_fields(fc[0]) + w_chain(fc[1])) + w_str(s) + w_bool(tol)
+            + w_list(ops, lambda o: [o[0], o[1]]))
+
+
+def run_script_multi(states, s, tol, ops):
+    """one reader, a TRANSIENT parsing-state object for every operation (built, used once, dropped)"""
+    import gc
+    from pylatexenc.latexnodes import LatexTokenReader
+    tr = LatexTokenReader(s, tolerant_parsing=tol)
+    out = []
+    last = None
+    for op, k in ops:
+        ps, _ = make_state(states[k][0], states[k][1], s)
+        if op in (0, 1):
+            txt, t = _tokres((lambda: tr.peek_token(ps)) if op == 0 else (lambda: tr.next_token(ps)))
+            if t is not None:
+                last = t
+            out.append(txt + '@%d' % tr.cur_pos())
+        elif op == 6:
+            sub = run_script_from(tr, ps, s)
+            out.append(sub)
+        else:
+            if last is None:
+                out.append('-')
+            else:
+                if op == 2:
+                    tr.move_to_token(last)
+                elif op == 3:
+                    tr.move_to_token(last, rewind_pre_space=False)
+                elif op == 4:
+                    tr.move_past_token(last)
+                else:
+                    tr.move_past_token(last, fastforward_post_space=False)
+                out.append('@%d' % tr.cur_pos())
+        del ps
+    return ' '.join(out)
+
+
+def run_script_from(tr, ps, s):
+    from pylatexenc.latexnodes import LatexWalkerEndOfStream, LatexWalkerTokenParseError
+    toks = []
+    p0 = tr.cur_pos()
+    res = None
+    for _ in range(len(s) + 1):
+        try:
+            toks.append(tr.next_token(ps))
+        except LatexWalkerEndOfStream as e:
+            res = show_list(toks, dump_token) + show_str(e.final_space or '')
+            break
+        except LatexWalkerTokenParseError as e:
+            res = 'ERR(%s,%d)' % (ERRKIND.get((e.error_type_info or {}).get('what'), '?'), e.pos)
+            break
+    if res is None:
+        res = 'OOF'
+    tr.move_to_pos_chars(p0)
+    return res
